@@ -214,6 +214,12 @@ def evaluate(case):
 def _evaluate(case, cnt):
     cfg, opts = case["cfg"], case["opts"]
     alg = kd.build_algebra(cfg, wrapper=opts == "wrapper", graded=opts == "graded", cse=opts != "nocse")
+    if opts == "wrapper":
+        # the wrapper stands for a JIT compiler: applying it IS compiling, so every application is a generation event
+        def counting_wrapper(f, _ev=cnt.events):
+            _ev.append(("wrap", getattr(f, "__name__", "?") + "@" + hex(id(f)), ()))
+            return kd.passthrough(f)
+        alg.wrapper = counting_wrapper
     d = len(cfg["sig"])
     ev = cnt.events
     # liveness of the instrumentation on a guaranteed-new pattern
